@@ -256,6 +256,23 @@ func (p *Pool) Put(x any) {
 	p.mu.Unlock()
 }
 
+// Once replaces sync.Once: a second caller that arrives while the function runs
+// (it may contain scheduling points) parks cooperatively instead of blocking on
+// a real mutex.
+type Once struct {
+	m    Mutex
+	done bool
+}
+
+func (o *Once) Do(f func()) {
+	o.m.Lock()
+	defer o.m.Unlock()
+	if !o.done {
+		defer func() { o.done = true }()
+		f()
+	}
+}
+
 var denseOn atomic.Bool
 
 // SetDense switches the dense scheduling points (rewriter rule R9) on or off for the coming run.
